@@ -30,7 +30,7 @@ by -max_len (4 kB; token822 repeats its input up to 64 kB), so "64 kB SMTP lines
 Excluded by construction (counted in classes.excluded_*): an unterminated final report in a qmail-remote child's output
 (outside the protocol of qmail-remote.8; qmail-rspawn's report() would run substdio_puts past it).
 """
-import os, re, time, shutil, hashlib, subprocess
+import os, re, json, time, shutil, hashlib, subprocess
 import concurrent.futures as cf
 from lib import vlib, inproc
 
@@ -75,6 +75,7 @@ TARGETS = [
     T("spawn", "prot.o slurpclose.o coe.o tcpto_clean.o sig.a wait.a case.a cdb.a fd.a open.a lock.a env.a auto_spawn.o ids.a " + BASE, max_len=2048,
       deps="spawn.o qmail-lspawn.o qmail-rspawn.o"),
     T("control", "control.o constmap.o getln.a case.a " + BASE),
+    T("tcpto", "tcpto.o tcpto_clean.o ip.o open.a lock.a " + BASE, max_len=1200),
     T("cdb", "cdb.a " + BASE),
     T("local", "quote.o gfrom.o myctime.o slurpclose.o case.a getln.a getopt.a sig.a open.a lock.a fd.a wait.a env.a strerr.a datetime.a "
                "auto_patrn.o " + BASE, deps="qmail-local.o"),
@@ -362,10 +363,18 @@ def run(ctx):
         from props import c20_daemon
         c20_daemon.run_daemon_part(ctx)
         return
+    if ctx.only == {"bsessions"}:
+        from props import c20_sessions
+        c20_sessions.run_sessions_part(ctx)
+        return
     if ctx.only is None:
         # sanitised qmail-send/qmail-clean/qmail-queue in driven daemon histories under every single I/O failure (props/c20_daemon.py)
-        from props import c20_daemon
+        from props import c20_daemon, c20_sessions
         c20_daemon.run_daemon_part(ctx)
+        if ctx.stats.violations:
+            return
+        # sanitised network daemons in boundary sessions (props/c20_sessions.py)
+        c20_sessions.run_sessions_part(ctx)
         if ctx.stats.violations:
             return
     if ctx.only is None or ctx.only != {"sessions"}:
@@ -504,7 +513,11 @@ def whole_program_sessions(ctx):
 
 def replay(ctx, path):
     if path.endswith(".json"):
-        from props import c20_daemon
+        from props import c20_daemon, c20_sessions
+        j = json.load(open(path))
+        sc = j.get("scenario", j)
+        if isinstance(sc, dict) and sc.get("part") == "sessions":
+            return c20_sessions.replay(ctx, sc)
         return c20_daemon.replay(ctx, path)
     name = os.path.basename(path).split("-")[0]
     ts = [t for t in TARGETS if t.name == name]
